@@ -999,6 +999,26 @@ func (t *Table) Reduce(cfg SortConfig, aaps []AliasAccPair) error {
 		}
 		return res.String()
 	}
+	// The rows of one group have to be contiguous. The sort above only guarantees
+	// it when every grouping column holds values of one kind (values of different
+	// kinds are not ordered), so gather the rows of each group, keeping the groups
+	// in the order of their first row.
+	{
+		var order []string
+		groups := make(map[string][]Row)
+		for _, r := range t.Data {
+			k := id(r)
+			if _, ok := groups[k]; !ok {
+				order = append(order, k)
+			}
+			groups[k] = append(groups[k], r)
+		}
+		data := make([]Row, 0, len(t.Data))
+		for _, k := range order {
+			data = append(data, groups[k]...)
+		}
+		t.Data = data
+	}
 	for idx, r := range t.Data {
 		current = id(r)
 		// First time.
